@@ -12,6 +12,7 @@ CONSTANTS
  Chunks = {1, 7}
  LyingSizes = TRUE
  InlineData = TRUE
+ Conc = 64
 INIT GInit
 NEXT GNext
 INVARIANTS Emit
